@@ -43,7 +43,6 @@ def fresh(fn):
 
 def world():
     """fresh classes, observations and operations (built once per engine run)"""
-    import apischema
     from apischema import (deserialize, serialize, settings, ValidationError, alias, order, schema, type_name, validator,
                            deserializer, serializer, serialized, dependent_required, discriminator)
     from apischema.conversions import Conversion, reset_deserializers, reset_serializer
@@ -135,6 +134,7 @@ def baseline(ops_fn, i):
 
 
 def run(prop, seed, budget, ctx):
+    import apischema
     from apischema.cache import reset
     sys.path.insert(0, os.path.join(ctx["root"], "lean"))
     rnd = random.Random(seed)
@@ -142,6 +142,47 @@ def run(prop, seed, budget, ctx):
     n_ops = len(ops_fn(True))
     failures, hist, samples, distinct = [], collections.Counter(), [], set()
     evaluations = 0
+    # mode 0: dynamic reading of the wiring, to be compared with the table the translator generated from the source:
+    # every attribute of every settings class and every mutator of every wrapped registry must empty every registered cache
+    import apischema.cache as cmod
+    from apischema.cache import CacheAwareDict
+    import importlib, pkgutil
+    def warmed():
+        for ofn in list(OBS.values())[:6]: outcome(ofn)
+        return [c.cache_info().currsize for c in cmod._cached]
+    def all_empty(): return all(c.cache_info().currsize == 0 for c in cmod._cached)
+    def settings_classes(cls, path):
+        yield path, cls
+        for k, v in vars(cls).items():
+            if isinstance(v, type) and not k.startswith("__"): yield from settings_classes(v, path + "." + k)
+    from apischema import settings as S
+    for path, cls in settings_classes(S, "settings"):
+        for name, val in list(vars(cls).items()):
+            if name.startswith("__") or isinstance(val, type) or isinstance(val, property): continue
+            if sum(warmed()) == 0: continue
+            evaluations += 1; hist["wiring:settings-attribute"] += 1
+            try: setattr(cls, name, val)                     # same value: configuration unchanged, the path is what is tested
+            except Exception: continue
+            if not all_empty():
+                failures.append({"kind": "P", "mode": "wiring", "point": ["settings", path], "op": f"{path}.{name} = <same value>", "k_ok": True,
+                                 "why": ["assignment-does-not-reset-the-caches:" + path + "." + name]})
+            distinct.add(("wiring", path, name))
+    for m in pkgutil.walk_packages(apischema.__path__, "apischema."):
+        try: mod_ = importlib.import_module(m.name)
+        except Exception: continue
+        for rname, reg in list(vars(mod_).items()):
+            if isinstance(reg, CacheAwareDict) and getattr(reg, "__module__", None) is None or isinstance(reg, CacheAwareDict):
+                class _K: pass
+                for mut, do in (("__setitem__", lambda: reg.__setitem__(_K, reg.wrapped.get(_K) if hasattr(reg.wrapped, "get") else None)),
+                                ("__delitem__", lambda: reg.__delitem__(_K))):
+                    if sum(warmed()) == 0: continue
+                    evaluations += 1; hist["wiring:registry-mutator"] += 1
+                    try: do()
+                    except Exception: continue
+                    if not all_empty():
+                        failures.append({"kind": "P", "mode": "wiring", "point": ["CacheAwareDict", mut], "op": f"{m.name}.{rname}.{mut}", "k_ok": True,
+                                         "why": [f"registry-mutation-does-not-reset-the-caches:{m.name}.{rname}.{mut}"]})
+                    distinct.add(("wiring", m.name, rname, mut))
     # mode 1: targeted (mutation, value, observation) triples
     for i in range(n_ops):
         for b in (True, False):
@@ -231,7 +272,7 @@ POINT_KF = {
 
 def is_known(kid, case):
     if case.get("kind") != "P": return False
-    if case.get("mode") in ("targeted", "key-clash"):
+    if case.get("mode") in ("targeted", "key-clash", "wiring"):
         return POINT_KF.get(tuple(case["point"])) == kid
     if case.get("mode") == "history" and kid == "KF13" and case.get("observation", "").startswith("deser_Union["):
         return True
